@@ -98,6 +98,14 @@ func genHistory(t *rapid.T, k HistKnobs) *Script {
 			add(rig.Step{Op: "in", In: g.logout()})
 			g.logged = false
 		case kind < 46:
+			if rapid.IntRange(0, 5).Draw(t, "hbDisguised") == 0 {
+				// a Heartbeat that carries a second MsgType field and the fields of a Logon behind it: still a Heartbeat
+				m := g.heartbeat("")
+				m.Fields = append(m.Fields, rig.F(rig.TagMsgType, rig.TLogon), rig.F(rig.TagEncryptMethod, cfg.Methods[0]), rig.F(rig.TagHeartBtInt, itoa(cfg.HBMin)),
+					rig.F(rig.TagUsername, "alice"), rig.F(rig.TagPassword, "secret"))
+				add(rig.Step{Op: "in", In: m})
+				break
+			}
 			hbID := ""
 			if rapid.IntRange(0, 2).Draw(t, "hbWithID") == 0 {
 				hbID = rapid.SampledFrom([]string{"1", "x", "TEST"}).Draw(t, "hbID") // a Heartbeat that claims to answer a TestRequest
